@@ -32,12 +32,25 @@ func runC02(x *X) {
 		name   string
 		depth  int
 		counts []int
+		items  ItemGen
 	}
-	fams := []fam{{"build-seq", x.Pick(5, 6), []int{0, 1, 2, 3, 11}}}
+	// equal-texts: every cell of the table (headers included) shows the same text - "dup", or nothing at all
+	equalItems := func(text string) ItemGen {
+		return func(c *Chooser, b *Builder, op string, n int) ([]interface{}, []string, string) {
+			items, texts := make([]interface{}, n), make([]string, n)
+			for i := range items {
+				items[i], texts[i] = text, text
+			}
+			return items, texts, fmt.Sprintf("%d x %q", n, text)
+		}
+	}
+	fams := []fam{{"build-seq", x.Pick(5, 6), []int{0, 1, 2, 3, 11}, nil},
+		{"build-seq-equal-texts", x.Pick(4, 5), []int{0, 1, 2, 3}, equalItems("dup")},
+		{"build-seq-blank-texts", x.Pick(4, 5), []int{0, 1, 2, 3}, equalItems("")}}
 	if x.Thorough() {
-		fams = append(fams, fam{"build-seq-narrow", 7, []int{0, 1, 2}})
+		fams = append(fams, fam{"build-seq-narrow", 7, []int{0, 1, 2}, nil})
 	} else {
-		fams = append(fams, fam{"build-seq-narrow", 6, []int{0, 1, 2}})
+		fams = append(fams, fam{"build-seq-narrow", 6, []int{0, 1, 2}, nil})
 	}
 	// crossing the 50-row mark (the core pre-allocates 50 row slots): 49 rows/separators first, then everything again
 	tallCfg := &BuildCfg{Counts: []int{0, 1, 2}, MaxDetached: 1, AllowSepAdd: true, AllowMutateCopy: true, AllowNewRowSized: true}
@@ -95,7 +108,7 @@ func runC02(x *X) {
 	})
 	for _, f := range fams {
 		f := f
-		cfg := &BuildCfg{Counts: f.counts, MaxDetached: 2, AllowSepAdd: true, AllowMutateCopy: true, AllowNewRowSized: true}
+		cfg := &BuildCfg{Counts: f.counts, MaxDetached: 2, AllowSepAdd: true, AllowMutateCopy: true, AllowNewRowSized: true, Items: f.items}
 		x.Explore(f.name, ExploreOpts{ShardDepth: 2, Bound: fmt.Sprintf("depth<=%d counts=%v", f.depth, f.counts)}, func(c *Chooser) {
 			b := NewBuilder(cfg)
 			c02Oracle(x, b, "new")
